@@ -825,6 +825,12 @@ func AddStructDefaults(t *rapid.T, m *Model) int {
 						delete(obj, tf.Name)
 					}
 				}
+				// an EMPTY struct default (`*{} | #B`) is dropped by the CUE front
+				// end like every empty value inside a default (listed under C10):
+				// not drawn
+				if len(obj) == 0 {
+					continue
+				}
 				if b, err := json.Marshal(obj); err == nil {
 					doc.JSON = string(b)
 				}
